@@ -144,7 +144,7 @@ pub fn c01_oracle(t: &TextTree, text: &str) -> Outcome {
 pub fn alphabet_main() -> Vec<Sym> {
     syms(
         &["東", "京", "1", "a"],
-        &["㍿", "ｶ", "ﾞ", "ー", "(", "ア", ")", "\u{301}", "A", "一", "十", ",", "𠮷", "あ", "野", "都"],
+        &["㍿", "ｶ", "ﾞ", "ー", "(", "ア", ")", "\u{301}", "A", "一", "十", ",", "𠮷", "あ", "野", "都", "c", "d"],
     )
 }
 
